@@ -11,7 +11,7 @@ ID = "C12"
 READY = True
 LEVEL = "exploration"
 WORKERS = {"quick": 8, "thorough": 16}
-BUDGET = {"quick": 60, "thorough": 420}
+BUDGET = {"quick": 150, "thorough": 420}
 MIN_NONTRIVIAL = {"quick": 2000, "thorough": 12000}
 REQUIRED_HOOKS = ["evaluate:I", "evaluate:C", "resolve", "resolve-reuse", "macro-scope", "declaration"]
 RULE = (
